@@ -1,6 +1,7 @@
 /-
   C02 with path-kind changes — the in-place commit yields exactly the new build also when paths change kind
-  (file / directory / symlink) between the builds, outside the one shape of finding F8 that is left.
+  (file / directory / symlink) between the builds: ALL kind changes, since the repair of the last shape of
+  finding F8.
 
   `commit_correct_partial` (Props/C02.lean) assumes `NoKindClash old new`: NO path changes kind.  That is much
   stronger than needed.  Here the hypothesis is replaced by `BenignKindChanges old new w`, which allows
@@ -8,27 +9,28 @@
       symlink -> file      the new file being staged OR the output of a transposition (a `move` or a `copy`)
       dir -> file          likewise, WHATEVER lies below the old directory (files of it may be renamed or copied
                            elsewhere — even onto the directory's own path; what is left goes with the directory)
-      file -> dir          the old file not being a transposition source
+      file -> dir          whatever happens to the old file (it may be renamed or copied elsewhere — even into
+                           the new directory: it steps aside first, `Commit.moveSourcesAside`)
       file -> symlink      whatever happens to the old file (it may be renamed or copied elsewhere)
       symlink -> dir
       dir -> symlink       whatever lies below the old directory (files of it may be renamed or copied out),
                            whatever the symlink points to
 
   provided a new directory that replaces an old file or symlink is listed before the new directories below it
-  (`dirOrder`; `tlc.Walk` lists parents first).  `NoKindClash` implies `BenignKindChanges` (`NoKindClash.benign`),
-  so `commit_correct_partial` is a corollary (`commit_correct_partial_of_kinds`).
+  (`DirOrder`, the only clause left; `tlc.Walk` lists parents first).  The headline statement is `commit_correct`:
+  `BuildWF` of both builds, `DirOrder`, `WorkOK`, every pair of visiting orders.  `NoKindClash` implies
+  `BenignKindChanges` (`NoKindClash.benign`), so `commit_correct_partial` is a corollary
+  (`commit_correct_partial_of_kinds`).
 
-  Both clauses are needed — each is violated by an instance on which the model's `commit` fails (second half of
-  the file, machine-checked):
-
-      F8 (3) file -> dir holding the old file renamed            `f8_3_*`   error (EISDIR)
-  and, found while looking for the right predicate (not among the four recorded shapes):
+  The clause is needed IN THE MODEL, which takes the new directories as a list in any order — it is violated by an
+  instance on which the model's `commit` fails (machine-checked):
       (9) file -> dir, new directories listed child first         `g9_*`     error (ENOTDIR)  [model only]
+  No instance with well-formed builds and `DirOrder` fails (the theorem).
 
-  Seven more instances — three of the four recorded shapes of F8 among them — were genuine defects of the code
-  (findings F25, F26, F27, F8 (1)/(2)).  The code has been repaired, the model follows, the clauses that excluded
-  them are gone, and the instances are kept as POSITIVE ones (the commit now yields exactly the new build,
-  `g5_ok`, `g6_ok`, `g7_ok`, `f8_4_ok`, `g8_ok`, `f8_1_ok`, `f8_2_ok`):
+  Ten more instances — the four recorded shapes of F8 among them — were genuine defects of the code (findings F25,
+  F26, F27, F8 (1)/(2), F8 (3)).  The code has been repaired, the model follows, the clauses that excluded them
+  are gone, and the instances are kept as POSITIVE ones (the commit now yields exactly the new build, `g5_ok`,
+  `g6_ok`, `g7_ok`, `f8_4_ok`, `g8_ok`, `f8_1_ok`, `f8_2_ok`, `f8_3_ok`, `h11_ok`, `h12_ok`):
       (5) dir -> symlink, ghost reached THROUGH the new symlink   `g5_*`     was: success reported, a NEW file deleted
       (6) symlink -> file written by a transposition COPY         `g6_*`     was: success reported, symlink still there
       (7) emptydir -> file written by a transposition COPY        `g7_*`     was: error (EISDIR)
@@ -36,6 +38,9 @@
       (8) file -> symlink, the old file renamed elsewhere         `g8_*`     was: success reported, the SYMLINK renamed
       F8 (1) dir -> file, new file, non-empty directory          `f8_1_*`   was: error (ENOTEMPTY)
       F8 (2) dir -> file, renamed file, non-empty directory      `f8_2_*`   was: error (ENOTEMPTY)
+      F8 (3) file -> dir holding the old file renamed            `f8_3_*`   was: error (EISDIR)
+      (11) F8 (3) next to a file -> symlink copied elsewhere     `h11_*`    was: success reported, a DIRECTORY renamed
+      (12) F8 (3) onto a non-empty old directory                  `h12_*`    was: success reported, a DIRECTORY renamed
   F25: `deleteGhosts` now skips a ghost below a path that is a file or a symlink of the new build, so the second
   half of the former `dirToSymlink` clause ("the old paths below the directory are unreachable through the new
   symlink": `DeadEnd`) is gone.  F26: `copy` now removes a destination that is not a regular file before writing
@@ -53,14 +58,26 @@
   file is empty") is gone: when the staged moves and the cleanup renames run, whatever is left below such a
   directory is a ghost — nothing of the new build lies below a path that is a file of the new build — and the
   second pass never writes onto such a directory (`Commit.Soft`, `Commit.cleanup_specD`, `Commit.stageFold_specD`).
+  F8 (3): a new first phase, `moveSourcesAside`, renames every file of the old build that is a transposition
+  source AND whose own path is a directory of the new build to `<path>.butler-aside-N` (a name that is not a path
+  of either build: `Commit.nextFreeAside_spec`) BEFORE `ensureDirs` clears it away; `applyTranspositions` reads
+  it from there.  The first half of `sources` ("a transposition source does not become a directory") — the last
+  clause but `dirOrder` — is gone.  In the helper lemmas (Wharf/Proofs/CommitAside.lean) nothing of the later
+  phases is redone: after `moveSourcesAside` the tree holds exactly a VIRTUAL old build, the old build with the
+  files that stepped aside at their aside paths (`Commit.vb`), which is well formed, fits the same work record,
+  and none of whose transposition sources becomes a directory; the rest of the commit IS the commit of that
+  build (same transpositions, same temporary names: a `.butler-rename-N` name is never a `.butler-aside-M` name,
+  `Commit.asideName_ne_seedName`), and the aside files are consumed — the last step of each of their groups is a
+  rename — so ghost deletion, which knows nothing of them, finds nothing of them (`Commit.commit_specA`).
 
-  The reordering of F27 does no harm inside `BenignKindChanges` (the theorem), and outside only within the failing
-  class F8 (3): see "what the reordering changes OUTSIDE `BenignKindChanges`" (`h10_*`, `h11_*`).
+  The parent of a file that steps aside is never itself replaced: the file's path is a directory of the new
+  build, so its parent is one too, and it is a directory of the old build because the file was there.
 
   What is left: see "what remains" at the end of the file.
 -/
 import Wharf.Props.C02
 import Wharf.Proofs.CommitKinds
+import Wharf.Proofs.CommitAside
 
 namespace Wharf.C02
 open Wharf Wharf.FS Wharf.Commit
@@ -73,29 +90,40 @@ def outputsOf (old new : Build) (w : Work) : List Path :=
     | some (np, _), some _ => some np
     | _, _ => none
 
-/-- Benign kind changes: what the commit needs of the paths that change kind between the builds.
-    (`isPrefix p q` = "`q` lies strictly below `p`".)
+/-- A new directory that replaces an old file or an old symlink is listed before the new directories below it
+    (`isPrefix p q` = "`q` lies strictly below `p`").  `tlc.Walk` lists a directory before what is below it, so the
+    containers the code works with satisfy this; the model takes the directories as a list, and `ensureDirs`
+    visits them in that order (`g9_*` below: listed child first, `mkdir -p` meets the old file). -/
+def DirOrder (new old : Build) : Prop :=
+  new.dirs.Pairwise (fun a b => isPrefix b a = true →
+    b ∉ old.files.map (·.1) ∧ b ∉ old.symlinks.map (·.1))
+
+instance (new old : Build) : Decidable (DirOrder new old) := by unfold DirOrder; infer_instance
+
+/-- Benign kind changes: what the commit needs of the paths that change kind between the builds — since the
+    repair of finding F8 (3) only that the new directories come parents first (`DirOrder`).
 
     Nothing is asked of a path that becomes a SYMLINK: since the repair of finding F27 the new symlinks are put
     in place after the transpositions, the staged moves and the overlays, so whatever stood there — a file, or a
     directory with all that is below it — is still in place while files are renamed and copied out of it, and
     goes away (`os.RemoveAll`) afterwards.  (The old paths below it are ghosts; since the repair of finding F25
     `deleteGhosts` skips them instead of looking them up THROUGH the new symlink, so nothing is asked of the
-    symlink's destination either.)  The former clause `dirToSymlink` (no transposition source below an old
-    directory that becomes a symlink) is gone, and `sources` no longer mentions the new symlinks.
+    symlink's destination either.)  The former clause `dirToSymlink` is gone.
 
     Nothing is asked of a path that becomes a regular FILE either: since the repair of finding F8 (1)/(2) a
     directory standing where a staged file or a cleanup rename goes is removed with all that is left below it
     (`os.RemoveAll`), and a transposition output that is a directory of the old build is written under a
     temporary name first, so the files below it are still there when their groups are read.  The former clause
-    `emptyDir` (an old directory that becomes a file is empty) is gone. -/
+    `emptyDir` is gone.
+
+    Nothing is asked of a path that becomes a DIRECTORY beyond the listing order: since the repair of finding
+    F8 (3) an old file that some new file is a copy or a rename of, and whose own path is a directory of the new
+    build, is renamed to `<path>.butler-aside-N` before `ensureDirs` clears it away, and the transpositions read
+    it from there (`Commit.moveSourcesAside`, `Commit.asideOf`).  The former clause `sources` (no transposition
+    source is a directory of the new build) is gone. -/
 structure BenignKindChanges (old new : Build) (w : Work) : Prop where
-  /-- file → dir: the old file is not the source of a transposition (it is cleared by `ensureDirs` before the
-      transpositions run) -/
-  sources : ∀ p ∈ sourcesOf old new w, p ∉ new.dirs
   /-- file → dir, symlink → dir: the replaced path is listed before the new directories below it -/
-  dirOrder : new.dirs.Pairwise (fun a b => isPrefix b a = true →
-    b ∉ old.files.map (·.1) ∧ b ∉ old.symlinks.map (·.1))
+  dirOrder : DirOrder new old
 
 theorem outputsOf_eq (old new : Build) (w : Work) :
     outputsOf old new w = (Commit.tsOf old new w).map (·.outputPath) := by
@@ -109,23 +137,26 @@ theorem outputsOf_eq (old new : Build) (w : Work) :
 
 theorem allPaths_eq (b : Build) : allPaths b = Commit.pathsOf b := rfl
 
-theorem BenignKindChanges.toBKC {old new : Build} {w : Work} (h : BenignKindChanges old new w) :
-    Commit.BKC old new w := by
-  refine ⟨?_, h.dirOrder⟩
-  intro p hp
-  apply h.sources
-  rw [sourcesOf_eq]
-  exact hp
-
-/-- C02 with benign kind changes: transpositions, every pair of visiting orders. -/
+/-- C02 with kind changes: transpositions, every pair of visiting orders. -/
 theorem commit_correct_kinds_partial (old new : Build) (w : Work) (order₁ order₂ : List Path)
     (hold : BuildWF old) (hnew : BuildWF new) (hb : BenignKindChanges old new w)
     (hw : WorkOK old new w)
     (ho₁ : order₁.Perm (sourcesOf old new w)) (ho₂ : order₂.Perm (sourcesOf old new w)) :
     ∃ t', commit old new w order₁ order₂ (treeOfBuild old) = .ok t' ∧ Holds t' new := by
   rw [sourcesOf_eq] at ho₁ ho₂
-  obtain ⟨t', h1, _, h2⟩ := Commit.commit_spec' hold.toBWF hnew.toBWF hb.toBKC hw.toWOK ho₁ ho₂
+  obtain ⟨t', h1, _, h2⟩ := Commit.commit_specA hold.toBWF hnew.toBWF hb.dirOrder hw.toWOK ho₁ ho₂
   exact ⟨t', h1, h2⟩
+
+/-- C02, the headline statement: for well-formed builds whose new directories are listed parents first (as
+    `tlc.Walk` lists them) and the work record of the patching phase, `commit` applied to the tree holding exactly
+    the old build succeeds and yields a tree holding exactly the new build — whatever paths change kind between
+    the builds, whatever the two visiting orders of the transposition maps.  (`CommitCorrect` of Props/C02.lean
+    plus `DirOrder`; without `DirOrder` the MODEL fails on `g9_*`.) -/
+theorem commit_correct (old new : Build) (w : Work) (order₁ order₂ : List Path)
+    (hold : BuildWF old) (hnew : BuildWF new) (hdo : DirOrder new old) (hw : WorkOK old new w)
+    (ho₁ : order₁.Perm (sourcesOf old new w)) (ho₂ : order₂.Perm (sourcesOf old new w)) :
+    ∃ t', commit old new w order₁ order₂ (treeOfBuild old) = .ok t' ∧ Holds t' new :=
+  commit_correct_kinds_partial old new w order₁ order₂ hold hnew ⟨hdo⟩ hw ho₁ ho₂
 
 /-- consequence: the result does not depend on the visiting orders -/
 theorem commit_kinds_order_independent (old new : Build) (w : Work) (o₁ o₂ o₁' o₂' : List Path)
@@ -156,22 +187,16 @@ theorem kindOf_file' {b : Build} (hb : BuildWF b) {p : Path} (h : p ∈ b.files.
   simp only [kindOf, if_neg h1, if_neg h2, if_pos h]
 
 /-- no kind change at all is a benign kind change -/
-theorem NoKindClash.benign {old new : Build} (w : Work) (hold : BuildWF old) (hnew : BuildWF new)
+theorem NoKindClash.benign {old new : Build} (w : Work) (hold : BuildWF old) (_hnew : BuildWF new)
     (hk : NoKindClash old new) : BenignKindChanges old new w := by
-  have hsrc : ∀ p ∈ sourcesOf old new w, p ∈ old.files.map (·.1) := by
-    intro p hp
-    rw [sourcesOf_eq] at hp
-    exact Commit.srcsOf_old hp
   constructor
-  · intro p hp h
-    cases hk _ _ _ (kindOf_file' hold (hsrc p hp)) (kindOf_dir' h)
-  · apply List.pairwise_of_forall_mem_list
-    intro a _ b hb _
-    constructor
-    · intro h
-      cases hk _ _ _ (kindOf_file' hold h) (kindOf_dir' hb)
-    · intro h
-      cases hk _ _ _ (kindOf_symlink' hold h) (kindOf_dir' hb)
+  apply List.pairwise_of_forall_mem_list
+  intro a _ b hb _
+  constructor
+  · intro h
+    cases hk _ _ _ (kindOf_file' hold h) (kindOf_dir' hb)
+  · intro h
+    cases hk _ _ _ (kindOf_symlink' hold h) (kindOf_dir' hb)
 
 /-- `commit_correct_partial` (Props/C02.lean) as a corollary of the statement with kind changes -/
 theorem commit_correct_partial_of_kinds (old new : Build) (w : Work) (order₁ order₂ : List Path)
@@ -223,12 +248,11 @@ theorem WorkOK.of_check {old new : Build} {w : Work}
       simp only [Option.map_some, Option.some.injEq, decide_eq_true_eq] at this
       exact ⟨e.1, e.2, rfl, this⟩
 
-/-- `BenignKindChanges` on a literal instance: all clauses are decidable -/
+/-- `BenignKindChanges` on a literal instance: the clause is decidable -/
 theorem BenignKindChanges.of_check {old new : Build} {w : Work}
-    (sources : ∀ p ∈ sourcesOf old new w, p ∉ new.dirs)
     (dirOrder : new.dirs.Pairwise (fun a b => isPrefix b a = true →
       b ∉ old.files.map (·.1) ∧ b ∉ old.symlinks.map (·.1))) : BenignKindChanges old new w :=
-  ⟨sources, dirOrder⟩
+  ⟨dirOrder⟩
 
 /-- a path that changes kind: the instance is outside `NoKindClash` -/
 theorem not_noKindClash {old new : Build} (p : Path) (k k' : Kind) (h1 : kindOf old p = some k)
@@ -258,7 +282,7 @@ theorem b1_work : WorkOK b1Old b1New b1Work :=
   WorkOK.of_check (by decide) (by decide) (by decide) (by decide) (by decide) (by decide) (by decide)
     (by decide) (by decide)
 theorem b1_benign : BenignKindChanges b1Old b1New b1Work :=
-  BenignKindChanges.of_check (by decide) (by decide)
+  BenignKindChanges.of_check (by decide)
 theorem b1_clash : ¬ NoKindClash b1Old b1New :=
   not_noKindClash ["s"] .symlink .file (by decide) (by decide) (by decide)
 theorem b1_ok : ∃ t', commit b1Old b1New b1Work [["k"]] [["k"]] (treeOfBuild b1Old) = .ok t' ∧ Holds t' b1New :=
@@ -275,7 +299,7 @@ theorem b2_work : WorkOK b2Old b2New b2Work :=
   WorkOK.of_check (by decide) (by decide) (by decide) (by decide) (by decide) (by decide) (by decide)
     (by decide) (by decide)
 theorem b2_benign : BenignKindChanges b2Old b2New b2Work :=
-  BenignKindChanges.of_check (by decide) (by decide)
+  BenignKindChanges.of_check (by decide)
 theorem b2_clash : ¬ NoKindClash b2Old b2New :=
   not_noKindClash ["s"] .file .symlink (by decide) (by decide) (by decide)
 theorem b2_ok : ∃ t', commit b2Old b2New b2Work [["k"]] [["k"]] (treeOfBuild b2Old) = .ok t' ∧ Holds t' b2New :=
@@ -292,7 +316,7 @@ theorem b3_work : WorkOK b3Old b3New b3Work :=
   WorkOK.of_check (by decide) (by decide) (by decide) (by decide) (by decide) (by decide) (by decide)
     (by decide) (by decide)
 theorem b3_benign : BenignKindChanges b3Old b3New b3Work :=
-  BenignKindChanges.of_check (by decide) (by decide)
+  BenignKindChanges.of_check (by decide)
 theorem b3_clash : ¬ NoKindClash b3Old b3New :=
   not_noKindClash ["s"] .symlink .dir (by decide) (by decide) (by decide)
 theorem b3_ok : ∃ t', commit b3Old b3New b3Work [["k"]] [["k"]] (treeOfBuild b3Old) = .ok t' ∧ Holds t' b3New :=
@@ -309,7 +333,7 @@ theorem b4_work : WorkOK b4Old b4New b4Work :=
   WorkOK.of_check (by decide) (by decide) (by decide) (by decide) (by decide) (by decide) (by decide)
     (by decide) (by decide)
 theorem b4_benign : BenignKindChanges b4Old b4New b4Work :=
-  BenignKindChanges.of_check (by decide) (by decide)
+  BenignKindChanges.of_check (by decide)
 theorem b4_clash : ¬ NoKindClash b4Old b4New :=
   not_noKindClash ["e"] .dir .file (by decide) (by decide) (by decide)
 theorem b4_ok : ∃ t', commit b4Old b4New b4Work [["k"]] [["k"]] (treeOfBuild b4Old) = .ok t' ∧ Holds t' b4New :=
@@ -326,7 +350,7 @@ theorem b5_work : WorkOK b5Old b5New b5Work :=
   WorkOK.of_check (by decide) (by decide) (by decide) (by decide) (by decide) (by decide) (by decide)
     (by decide) (by decide)
 theorem b5_benign : BenignKindChanges b5Old b5New b5Work :=
-  BenignKindChanges.of_check (by decide) (by decide)
+  BenignKindChanges.of_check (by decide)
 theorem b5_clash : ¬ NoKindClash b5Old b5New :=
   not_noKindClash ["f"] .file .dir (by decide) (by decide) (by decide)
 theorem b5_ok : ∃ t', commit b5Old b5New b5Work [["k"]] [["k"]] (treeOfBuild b5Old) = .ok t' ∧ Holds t' b5New :=
@@ -344,7 +368,7 @@ theorem b6_work : WorkOK b6Old b6New b6Work :=
   WorkOK.of_check (by decide) (by decide) (by decide) (by decide) (by decide) (by decide) (by decide)
     (by decide) (by decide)
 theorem b6_benign : BenignKindChanges b6Old b6New b6Work :=
-  BenignKindChanges.of_check (by decide) (by decide)
+  BenignKindChanges.of_check (by decide)
 theorem b6_clash : ¬ NoKindClash b6Old b6New :=
   not_noKindClash ["d"] .dir .symlink (by decide) (by decide) (by decide)
 theorem b6_ok : ∃ t', commit b6Old b6New b6Work [["k"]] [["k"]] (treeOfBuild b6Old) = .ok t' ∧ Holds t' b6New :=
@@ -358,7 +382,7 @@ theorem b6a_work : WorkOK b6Old b6aNew b6Work :=
   WorkOK.of_check (by decide) (by decide) (by decide) (by decide) (by decide) (by decide) (by decide)
     (by decide) (by decide)
 theorem b6a_benign : BenignKindChanges b6Old b6aNew b6Work :=
-  BenignKindChanges.of_check (by decide) (by decide)
+  BenignKindChanges.of_check (by decide)
 theorem b6a_ok : ∃ t', commit b6Old b6aNew b6Work [["k"]] [["k"]] (treeOfBuild b6Old) = .ok t' ∧
     Holds t' b6aNew :=
   commit_correct_kinds_partial _ _ _ _ _ b6_old_wf b6a_new_wf b6a_benign b6a_work (by decide) (by decide)
@@ -374,7 +398,7 @@ theorem b6f_work : WorkOK b6fOld b6fNew b6fWork :=
   WorkOK.of_check (by decide) (by decide) (by decide) (by decide) (by decide) (by decide) (by decide)
     (by decide) (by decide)
 theorem b6f_benign : BenignKindChanges b6fOld b6fNew b6fWork :=
-  BenignKindChanges.of_check (by decide) (by decide)
+  BenignKindChanges.of_check (by decide)
 theorem b6f_ok : ∃ t', commit b6fOld b6fNew b6fWork [["b"]] [["b"]] (treeOfBuild b6fOld) = .ok t' ∧
     Holds t' b6fNew :=
   commit_correct_kinds_partial _ _ _ _ _ b6f_old_wf b6f_new_wf b6f_benign b6f_work (by decide) (by decide)
@@ -390,7 +414,7 @@ theorem b6e_work : WorkOK b6eOld b6eNew b6eWork :=
   WorkOK.of_check (by decide) (by decide) (by decide) (by decide) (by decide) (by decide) (by decide)
     (by decide) (by decide)
 theorem b6e_benign : BenignKindChanges b6eOld b6eNew b6eWork :=
-  BenignKindChanges.of_check (by decide) (by decide)
+  BenignKindChanges.of_check (by decide)
 theorem b6e_ok : ∃ t', commit b6eOld b6eNew b6eWork [["b", "x"]] [["b", "x"]] (treeOfBuild b6eOld) = .ok t' ∧
     Holds t' b6eNew :=
   commit_correct_kinds_partial _ _ _ _ _ b6e_old_wf b6e_new_wf b6e_benign b6e_work (by decide) (by decide)
@@ -417,7 +441,7 @@ theorem b7_work : WorkOK b7Old b7New b7Work :=
   WorkOK.of_check (by decide) (by decide) (by decide) (by decide) (by decide) (by decide) (by decide)
     (by decide) (by decide)
 theorem b7_benign : BenignKindChanges b7Old b7New b7Work :=
-  BenignKindChanges.of_check (by decide) (by decide)
+  BenignKindChanges.of_check (by decide)
 theorem b7_sources : sourcesOf b7Old b7New b7Work = [["b"], ["a"]] := by decide
 theorem b7_ok (order₁ order₂ : List Path) (ho₁ : order₁.Perm [["b"], ["a"]]) (ho₂ : order₂.Perm [["b"], ["a"]]) :
     ∃ t', commit b7Old b7New b7Work order₁ order₂ (treeOfBuild b7Old) = .ok t' ∧ Holds t' b7New :=
@@ -512,6 +536,25 @@ theorem deleteGhosts_noop {old new : Build} {t : Tree}
   apply ghosts_all_noop
   exact fun x hx => h x (List.mem_mergeSort.mp hx)
 
+/-- `moveSourcesAside` on a literal instance in which no transposition source is a directory of the new build:
+    nothing moves, the map is empty -/
+theorem aside_nil_of_check {old new : Build} {w : Work} (t : Tree)
+    (h : w.transpositions.all (fun st =>
+      match old.files[st.2]? with
+      | some e => !new.dirs.contains e.1
+      | none => false) = true) :
+    moveSourcesAside old new w t = .ok (t, []) := by
+  apply Commit.moveSourcesAside_nil_of_sources
+  intro st hst
+  have := List.all_eq_true.mp h st hst
+  cases hf : old.files[st.2]? with
+  | none => rw [hf] at this; cases this
+  | some e =>
+    rw [hf] at this
+    refine ⟨e.1, e.2, rfl, fun hm => ?_⟩
+    simp only [List.contains_iff_mem.mpr hm] at this
+    cases this
+
 /-! ### the repaired shapes: three former counterexamples on which the commit is now right
 
   (5), (6), (7) were found while looking for the right predicate; each was a machine-checked instance on which
@@ -537,7 +580,7 @@ theorem g5_hyps : OtherHyps g5Old g5New g5Work [["b", "f"]] [["b", "f"]] :=
       (by decide) (by decide), by decide, by decide⟩
 /-- the instance is inside `BenignKindChanges` now that nothing is asked of the symlink's destination -/
 theorem g5_benign : BenignKindChanges g5Old g5New g5Work :=
-  BenignKindChanges.of_check (by decide) (by decide)
+  BenignKindChanges.of_check (by decide)
 theorem g5_clash : ¬ NoKindClash g5Old g5New :=
   not_noKindClash ["a"] .dir .symlink (by decide) (by decide) (by decide)
 
@@ -557,7 +600,8 @@ theorem g5_e5 : g5New.symlinks.foldlM (fun t (p, d) => ensureSymlink t p d) (tre
 theorem g5_e6 : deleteGhosts g5Old g5New g5T4 = .ok g5T4 := eq_of_yields (by decide +kernel)
 
 theorem g5_commit : commit g5Old g5New g5Work [["b", "f"]] [["b", "f"]] (treeOfBuild g5Old) = .ok g5T4 := by
-  simp only [commit, bind, Except.bind, g5_e1, g5_e2, g5_e3, g5_e4, g5_e5, g5_e6]
+  simp only [commit, bind, Except.bind,
+    aside_nil_of_check (old := g5Old) (new := g5New) (w := g5Work) _ (by decide), g5_e1, g5_e2, g5_e3, g5_e4, g5_e5, g5_e6]
 
 /-- the commit yields exactly the new build: `b/f` is still there -/
 theorem g5_ok : ∃ t', commit g5Old g5New g5Work [["b", "f"]] [["b", "f"]] (treeOfBuild g5Old) = .ok t' ∧
@@ -587,7 +631,7 @@ theorem g6_hyps : OtherHyps g6Old g6New g6Work [["b"]] [["b"]] :=
       (by decide) (by decide), by decide, by decide⟩
 /-- the instance is inside `BenignKindChanges` now that nothing is asked of the transposition outputs -/
 theorem g6_benign : BenignKindChanges g6Old g6New g6Work :=
-  BenignKindChanges.of_check (by decide) (by decide)
+  BenignKindChanges.of_check (by decide)
 theorem g6_clash : ¬ NoKindClash g6Old g6New :=
   not_noKindClash ["s"] .symlink .file (by decide) (by decide) (by decide)
 
@@ -602,7 +646,8 @@ theorem g6_e5 : g6New.symlinks.foldlM (fun t (p, d) => ensureSymlink t p d) g6T5
 theorem g6_e6 : deleteGhosts g6Old g6New g6T5 = .ok g6T5 := eq_of_yields (by decide +kernel)
 
 theorem g6_commit : commit g6Old g6New g6Work [["b"]] [["b"]] (treeOfBuild g6Old) = .ok g6T5 := by
-  simp only [commit, bind, Except.bind, g6_e1, g6_e2, g6_e3, g6_e4, g6_e5, g6_e6]
+  simp only [commit, bind, Except.bind,
+    aside_nil_of_check (old := g6Old) (new := g6New) (w := g6Work) _ (by decide), g6_e1, g6_e2, g6_e3, g6_e4, g6_e5, g6_e6]
 
 /-- the commit yields exactly the new build: `s` is a regular file, `b` has its new content -/
 theorem g6_ok : ∃ t', commit g6Old g6New g6Work [["b"]] [["b"]] (treeOfBuild g6Old) = .ok t' ∧ Holds t' g6New :=
@@ -627,7 +672,7 @@ theorem g7_hyps : OtherHyps g7Old g7New g7Work [["x"]] [["x"]] :=
       (by decide) (by decide), by decide, by decide⟩
 /-- the instance is inside `BenignKindChanges` now that nothing is asked of the transposition outputs -/
 theorem g7_benign : BenignKindChanges g7Old g7New g7Work :=
-  BenignKindChanges.of_check (by decide) (by decide)
+  BenignKindChanges.of_check (by decide)
 theorem g7_clash : ¬ NoKindClash g7Old g7New :=
   not_noKindClash ["e"] .dir .file (by decide) (by decide) (by decide)
 theorem g7_commit : commit g7Old g7New g7Work [["x"]] [["x"]] (treeOfBuild g7Old) = .ok g7T5 :=
@@ -674,7 +719,7 @@ theorem f8_4_hyps : OtherHyps f4Old f4New f4Work [["d", "x"], ["k"]] [["d", "x"]
 /-- the instance is inside `BenignKindChanges` now that nothing is asked of what lies below a directory that
     becomes a symlink -/
 theorem f8_4_benign : BenignKindChanges f4Old f4New f4Work :=
-  BenignKindChanges.of_check (by decide) (by decide)
+  BenignKindChanges.of_check (by decide)
 theorem f8_4_clash : ¬ NoKindClash f4Old f4New :=
   not_noKindClash ["d"] .dir .symlink (by decide) (by decide) (by decide)
 
@@ -693,7 +738,8 @@ theorem f8_4_e6 : deleteGhosts f4Old f4New f4T5 = .ok f4T5 := eq_of_yields (by d
 
 theorem f8_4_commit :
     commit f4Old f4New f4Work [["d", "x"], ["k"]] [["d", "x"], ["k"]] (treeOfBuild f4Old) = .ok f4T5 := by
-  simp only [commit, bind, Except.bind, f8_4_e1, f8_4_e2, f8_4_e3, f8_4_e4, f8_4_e5, f8_4_e6]
+  simp only [commit, bind, Except.bind,
+    aside_nil_of_check (old := f4Old) (new := f4New) (w := f4Work) _ (by decide), f8_4_e1, f8_4_e2, f8_4_e3, f8_4_e4, f8_4_e5, f8_4_e6]
 
 /-- the commit yields exactly the new build: `o/x` holds the content of the old `d/x`, `d` is the symlink -/
 theorem f8_4_ok :
@@ -723,7 +769,7 @@ theorem g8_hyps : OtherHyps g8Old g8New g8Work [["a"]] [["a"]] :=
       (by decide) (by decide), by decide, by decide⟩
 /-- the instance is inside `BenignKindChanges` now that a transposition source may become a symlink -/
 theorem g8_benign : BenignKindChanges g8Old g8New g8Work :=
-  BenignKindChanges.of_check (by decide) (by decide)
+  BenignKindChanges.of_check (by decide)
 theorem g8_clash : ¬ NoKindClash g8Old g8New :=
   not_noKindClash ["a"] .file .symlink (by decide) (by decide) (by decide)
 theorem g8_commit : commit g8Old g8New g8Work [["a"]] [["a"]] (treeOfBuild g8Old) = .ok g8T5 :=
@@ -768,7 +814,7 @@ theorem f8_1_ok : ∃ t', commit exF8Old exF8New f1Work [] [] (treeOfBuild exF8O
 
 /-- the instance is inside `BenignKindChanges` now that the clause `emptyDir` is gone -/
 theorem f8_1_benign : BenignKindChanges exF8Old exF8New f1Work :=
-  BenignKindChanges.of_check (by decide) (by decide)
+  BenignKindChanges.of_check (by decide)
 
 /-- it also follows from the theorem -/
 example : ∃ t', commit exF8Old exF8New f1Work [] [] (treeOfBuild exF8Old) = .ok t' ∧ Holds t' exF8New :=
@@ -807,7 +853,8 @@ theorem f8_2_e5 : f2New.symlinks.foldlM (fun t (p, d) => ensureSymlink t p d) f2
 /-- the ghost `d/x` lies below the new file `d` and is skipped, the ghost `y` has been renamed away -/
 theorem f8_2_e6 : deleteGhosts f2Old f2New f2T = .ok f2T := deleteGhosts_noop (by decide)
 theorem f8_2_commit : commit f2Old f2New f2Work [["y"]] [["y"]] (treeOfBuild f2Old) = .ok f2T := by
-  simp only [commit, bind, Except.bind, f8_2_e1, f8_2_e2, f8_2_e3, f8_2_e4, f8_2_e5, f8_2_e6]
+  simp only [commit, bind, Except.bind,
+    aside_nil_of_check (old := f2Old) (new := f2New) (w := f2Work) _ (by decide), f8_2_e1, f8_2_e2, f8_2_e3, f8_2_e4, f8_2_e5, f8_2_e6]
 
 /-- the commit yields exactly the new build: `d` is the regular file with the content of `y`; `d/x` and `y` are
     gone -/
@@ -817,7 +864,7 @@ theorem f8_2_ok :
 
 /-- the instance is inside `BenignKindChanges` now that the clause `emptyDir` is gone -/
 theorem f8_2_benign : BenignKindChanges f2Old f2New f2Work :=
-  BenignKindChanges.of_check (by decide) (by decide)
+  BenignKindChanges.of_check (by decide)
 
 example : ∃ t', commit f2Old f2New f2Work [["y"]] [["y"]] (treeOfBuild f2Old) = .ok t' ∧ Holds t' f2New :=
   commit_correct_kinds_partial _ _ _ _ _ f8_2_hyps.oldWF f8_2_hyps.newWF f8_2_benign f8_2_hyps.work
@@ -837,20 +884,24 @@ theorem f8_2b_hyps (o₁ o₂ : List Path) (h₁ : o₁.Perm [["d", "x"], ["d", 
     WorkOK.of_check (by decide) (by decide) (by decide) (by decide) (by decide) (by decide) (by decide)
       (by decide) (by decide), h₁, h₂⟩
 theorem f8_2b_benign : BenignKindChanges f2bOld f2bNew f2bWork :=
-  BenignKindChanges.of_check (by decide) (by decide)
+  BenignKindChanges.of_check (by decide)
 theorem f8_2b_ok (o₁ o₂ : List Path) (h₁ : o₁.Perm [["d", "x"], ["d", "z"]]) (h₂ : o₂.Perm [["d", "x"], ["d", "z"]]) :
     ∃ t', commit f2bOld f2bNew f2bWork o₁ o₂ (treeOfBuild f2bOld) = .ok t' ∧ Holds t' f2bNew :=
   commit_correct_kinds_partial _ _ _ _ _ (f8_2b_hyps o₁ o₂ h₁ h₂).oldWF (f8_2b_hyps o₁ o₂ h₁ h₂).newWF
     f8_2b_benign (f8_2b_hyps o₁ o₂ h₁ h₂).work h₁ h₂
 
-/-! ### every clause is needed: instances that violate one clause, on which `commit` fails
+/-! ### the shape repaired by `moveSourcesAside` (finding F8, shape (3)): one more former counterexample
 
-  Each instance satisfies ALL other hypotheses of the theorem (`BuildWF` of both builds, `WorkOK`, the orders
-  are permutations of the sources: `*_hyps`), violates `BenignKindChanges` (`*_not_benign`), and the model's
-  `commit` returns an error (`*_fails`).  (F8 (1) and F8 (2) used to be here, violating `emptyDir`: see above.) -/
+  F8 (3) was a machine-checked instance on which the model's `commit` — and the code — failed: a file of the old
+  build becomes a directory of the new build, and some file of the new build is a rename (or a copy) of it;
+  `ensureDirs`, which runs first, cleared the file away, and the transposition found a directory where its source
+  had been (EISDIR; with other instances of the shape a wrong tree with success reported: `h11_*`, `h12_*` below).
+  Since the repair the file steps aside before the directories are made (`f8_3_aside`), and the transposition
+  reads it from its aside path.  The model follows; the instance is kept, with the opposite conclusion
+  (`f8_3_ok`, by evaluation; `f8_3_ok_any_order`, by the theorem).  It used to violate the clause `sources`. -/
 
-/-! #### F8 (3) file → dir, the directory holding the old file renamed (violates `sources`): the file is
-    cleared by `ensureDirs`, the transposition finds a directory, EISDIR -/
+/-! #### F8 (3) file → dir, the directory holding the old file renamed.  Formerly EISDIR; now `f` is renamed to
+    `f.butler-aside-1`, the directory `f` is made, and the transposition renames the aside file to `f/inner`. -/
 def f3Old : Build := { files := [(["f"], [1]), (["k"], [3])] }
 def f3New : Build := { dirs := [["f"]], files := [(["f", "inner"], [1]), (["k"], [3])] }
 def f3Work : Work := { transpositions := [(0, 0), (1, 1)] }
@@ -859,11 +910,38 @@ theorem f8_3_hyps : OtherHyps f3Old f3New f3Work [["f"], ["k"]] [["f"], ["k"]] :
   ⟨⟨by decide, by decide, parents_of_check (by decide)⟩, ⟨by decide, by decide, parents_of_check (by decide)⟩,
     WorkOK.of_check (by decide) (by decide) (by decide) (by decide) (by decide) (by decide) (by decide)
       (by decide) (by decide), by decide, by decide⟩
-theorem f8_3_not_benign : ¬ BenignKindChanges f3Old f3New f3Work :=
-  fun h => h.sources ["f"] (by decide) (by decide)
-theorem f8_3_fails :
-    failsWith (commit f3Old f3New f3Work [["f"], ["k"]] [["f"], ["k"]] (treeOfBuild f3Old)) .eisdir = true := by
-  decide
+/-- after the commit: the directory `f` holds the old file under its new name -/
+def f3T : Tree := { entries := [(["k"], .file [3]), (["f"], .dir), (["f", "inner"], .file [1])] }
+/-- the source `f` steps aside: it is a directory of the new build -/
+theorem f8_3_aside :
+    (moveSourcesAside f3Old f3New f3Work (treeOfBuild f3Old)).toOption.map (·.2) =
+      some [(["f"], ["f.butler-aside-1"])] := by
+  decide +kernel
+theorem f8_3_commit :
+    commit f3Old f3New f3Work [["f"], ["k"]] [["f"], ["k"]] (treeOfBuild f3Old) = .ok f3T :=
+  eq_of_yields (by decide +kernel)
+/-- the commit yields exactly the new build: `f/inner` holds the content of the old `f` -/
+theorem f8_3_ok :
+    ∃ t', commit f3Old f3New f3Work [["f"], ["k"]] [["f"], ["k"]] (treeOfBuild f3Old) = .ok t' ∧
+      Holds t' f3New :=
+  ⟨f3T, f8_3_commit, holds_of_check (by decide)⟩
+
+/-- the instance is inside `BenignKindChanges` now that the clause `sources` is gone -/
+theorem f8_3_benign : BenignKindChanges f3Old f3New f3Work := BenignKindChanges.of_check (by decide)
+theorem f8_3_clash : ¬ NoKindClash f3Old f3New :=
+  not_noKindClash ["f"] .file .dir (by decide) (by decide) (by decide)
+
+/-- it also follows from the theorem, for every pair of visiting orders -/
+theorem f8_3_ok_any_order (o₁ o₂ : List Path) (h₁ : o₁.Perm [["f"], ["k"]]) (h₂ : o₂.Perm [["f"], ["k"]]) :
+    ∃ t', commit f3Old f3New f3Work o₁ o₂ (treeOfBuild f3Old) = .ok t' ∧ Holds t' f3New :=
+  commit_correct_kinds_partial _ _ _ _ _ f8_3_hyps.oldWF f8_3_hyps.newWF f8_3_benign f8_3_hyps.work h₁ h₂
+
+/-! ### the clause is needed: an instance that violates it, on which `commit` fails
+
+  The instance satisfies ALL other hypotheses of the theorem (`BuildWF` of both builds, `WorkOK`, the orders are
+  permutations of the sources: `g9_hyps`), violates `BenignKindChanges` (`g9_not_benign`), and the model's `commit`
+  returns an error (`g9_fails`).  (F8 (1), F8 (2) and F8 (3) used to be here, violating `emptyDir` and `sources`:
+  see above.) -/
 
 /-! #### (9) file → dir, the new directories listed child first (violates `dirOrder`): `mkdir -p a/x` meets the
     old file `a`, ENOTDIR.  (Model only: `tlc.Walk` lists a directory before its children.) -/
@@ -883,15 +961,14 @@ def g9New' : Build := { dirs := [["a"], ["a", "x"]] }
 theorem g9_reordered_ok : ∃ t', commit g9Old g9New' {} [] [] (treeOfBuild g9Old) = .ok t' ∧ Holds t' g9New' :=
   commit_correct_kinds_partial _ _ _ _ _ ⟨by decide, by decide, parents_of_check (by decide)⟩
     ⟨by decide, by decide, parents_of_check (by decide)⟩
-    (BenignKindChanges.of_check (by decide) (by decide))
+    (BenignKindChanges.of_check (by decide))
     (WorkOK.of_check (by decide) (by decide) (by decide) (by decide) (by decide) (by decide) (by decide)
       (by decide) (by decide)) (by decide) (by decide)
 
-/-! ### what the reordering changes OUTSIDE `BenignKindChanges`
+/-! ### what the reordering changed OUTSIDE the then `BenignKindChanges`
 
-  Inside `BenignKindChanges` — the former, stronger ones as well as the present one — the commit is right before
-  and after the repair of F27 (`commit_correct_kinds_partial`; the former predicates imply the present one).
-  Outside, an exhaustive comparison of the two orders with the compiled model on some 34 million runs over small
+  Inside `BenignKindChanges` as it was then (`emptyDir`, `sources`, `dirOrder`) the commit was right before and
+  after the repair of F27.  Outside, an exhaustive comparison of the two orders with the compiled model on some 34 million runs over small
   builds (three top-level names, directories with up to two entries, every admissible work record) found, next to
   3.1 million runs the reordering repairs, two ways in which it did harm.  Both were confined to the then known
   failing classes F8 (1)-(3); one instance of each is kept here.
@@ -905,12 +982,12 @@ theorem g9_reordered_ok : ∃ t', commit g9Old g9New' {} [] [] (treeOfBuild g9Ol
   the commit is right, and for the right reason (`h10_before_ok`, `h10_ok`); the instance is inside
   `BenignKindChanges` (`h10_benign`).
 
-  (11) violates `sources` (class F8 (3)).  Both orders rename the DIRECTORY `b` that `ensureDirs` put in place of
-  the source `b`, and so go wrong; the former order then failed (ENOENT) because the other source, `c`, had been
-  replaced by the new symlink, the present one renames `c` correctly and reports success: `a` is a directory
-  instead of a file (`h11_before_fails`, `h11_wrong`).  That F8 (3) may end in a wrong tree with success
-  reported, rather than in an error, is not new (drop `c` from the instance); all 80479 runs in which an error
-  turned into such a tree violate `sources`. -/
+  (11) violated the former clause `sources` (class F8 (3)).  Both orders renamed the DIRECTORY `b` that
+  `ensureDirs` put in place of the source `b`, and so went wrong; the former order then failed (ENOENT) because the
+  other source, `c`, had been replaced by the new symlink (`h11_before_fails`: `commitBeforeF27` does not let
+  sources step aside either), the reordered one renamed `c` correctly and reported success with `a` a directory
+  instead of a file (the former `h11_wrong`; all 80479 runs in which an error turned into such a tree violated
+  `sources`).  Since the repair of F8 (3) the source `b` steps aside first and the commit is right (`h11_ok`). -/
 
 /-- `Commit` as it was before the repair of finding F27: the new symlinks are put in place together with the new
     directories, before the transpositions (`ensureDirsAndSymlinks`). -/
@@ -958,14 +1035,15 @@ theorem h10_e5 : h10New.symlinks.foldlM (fun t (p, d) => ensureSymlink t p d) h1
 theorem h10_e6 : deleteGhosts h10Old h10New h10U5 = .ok h10U5 := deleteGhosts_noop (by decide)
 theorem h10_commit :
     commit h10Old h10New h10Work [["a", "y"]] [["a", "y"]] (treeOfBuild h10Old) = .ok h10U5 := by
-  simp only [commit, bind, Except.bind, h10_e1, h10_e2, h10_e3, h10_e4, h10_e5, h10_e6]
+  simp only [commit, bind, Except.bind,
+    aside_nil_of_check (old := h10Old) (new := h10New) (w := h10Work) _ (by decide), h10_e1, h10_e2, h10_e3, h10_e4, h10_e5, h10_e6]
 theorem h10_ok :
     ∃ t', commit h10Old h10New h10Work [["a", "y"]] [["a", "y"]] (treeOfBuild h10Old) = .ok t' ∧
       Holds t' h10New :=
   ⟨h10U5, h10_commit, holds_of_check (by decide)⟩
 /-- the instance is inside `BenignKindChanges` now that the clause `emptyDir` is gone -/
 theorem h10_benign : BenignKindChanges h10Old h10New h10Work :=
-  BenignKindChanges.of_check (by decide) (by decide)
+  BenignKindChanges.of_check (by decide)
 example :
     ∃ t', commit h10Old h10New h10Work [["a", "y"]] [["a", "y"]] (treeOfBuild h10Old) = .ok t' ∧
       Holds t' h10New :=
@@ -1028,36 +1106,48 @@ theorem h11_hyps : OtherHyps h11Old h11New h11Work [["b"], ["c"]] [["b"], ["c"]]
   ⟨⟨by decide, by decide, parents_of_check (by decide)⟩, ⟨by decide, by decide, parents_of_check (by decide)⟩,
     WorkOK.of_check (by decide) (by decide) (by decide) (by decide) (by decide) (by decide) (by decide)
       (by decide) (by decide), by decide, by decide⟩
-theorem h11_not_benign : ¬ BenignKindChanges h11Old h11New h11Work :=
-  fun h => h.sources ["b"] (by decide) (by decide)
 /-- before the repair of F27: an error -/
 theorem h11_before_fails :
     failsWith (commitBeforeF27 h11Old h11New h11Work [["b"], ["c"]] [["b"], ["c"]] (treeOfBuild h11Old)) .enoent =
       true := by
   decide +kernel
-/-- now: success reported, `a` is a directory -/
-theorem h11_wrong :
-    yields (commit h11Old h11New h11Work [["b"], ["c"]] [["b"], ["c"]] (treeOfBuild h11Old))
-      [(["a"], .dir), (["b"], .dir), (["b", "y"], .file [1]), (["b", "x"], .file [1]), (["c"], .symlink "/n")] =
-      true := by
-  decide +kernel
+/-- now (F8 (3) repaired): `b` steps aside, is renamed to `a` after being copied to `b/x`; `c` is copied to `b/y`
+    and gives way to the symlink -/
+def h11T : Tree :=
+  { entries := [(["b"], .dir), (["a"], .file [1]), (["b", "y"], .file [1]), (["b", "x"], .file [1]),
+      (["c"], .symlink "/n")] }
+theorem h11_commit :
+    commit h11Old h11New h11Work [["b"], ["c"]] [["b"], ["c"]] (treeOfBuild h11Old) = .ok h11T :=
+  eq_of_yields (by decide +kernel)
+theorem h11_ok :
+    ∃ t', commit h11Old h11New h11Work [["b"], ["c"]] [["b"], ["c"]] (treeOfBuild h11Old) = .ok t' ∧
+      Holds t' h11New :=
+  ⟨h11T, h11_commit, holds_of_check (by decide)⟩
+theorem h11_benign : BenignKindChanges h11Old h11New h11Work := BenignKindChanges.of_check (by decide)
+example :
+    ∃ t', commit h11Old h11New h11Work [["b"], ["c"]] [["b"], ["c"]] (treeOfBuild h11Old) = .ok t' ∧
+      Holds t' h11New :=
+  commit_correct_kinds_partial _ _ _ _ _ h11_hyps.oldWF h11_hyps.newWF h11_benign h11_hyps.work h11_hyps.perm₁
+    h11_hyps.perm₂
 
-/-! ### what the repair of F8 (1)/(2) changes OUTSIDE `BenignKindChanges`
+/-! ### what the repair of F8 (1)/(2) changed OUTSIDE the then `BenignKindChanges`
 
   An exhaustive comparison of the model before and after the repair of F8 (1)/(2) (`os.RemoveAll` in `move` and in
   the staged moves, temporary names for outputs that are old directories) with the compiled model, on the same
   34450200 runs over small builds as above: NO run that yielded the new build before fails or goes wrong now;
-  6310093 runs that failed now yield the new build; on the 26631920 runs inside the present `BenignKindChanges` the
+  6310093 runs that failed now yield the new build; on the 26631920 runs inside the then `BenignKindChanges` the
   commit yields the new build (the theorem), on the 19225101 inside the former one it did and does.  575580 runs
-  that ended in an error now end in a WRONG tree with success reported.  All of them violate `sources` (and the
-  former `emptyDir`): they are in the failing class F8 (3), which may end in a wrong tree anyway (`h11_wrong`).
-  One instance is kept here.
+  that ended in an error then ended in a WRONG tree with success reported.  All of them violated `sources` (and the
+  former `emptyDir`): they were in the then failing class F8 (3), which might end in a wrong tree anyway.  One
+  instance is kept here.
 
-  (12) violates `sources`.  The source `c` becomes a directory and is cleared by `ensureDirs`; the transposition
-  `c → b` then renames the DIRECTORY `c`.  Its output `b` is a non-empty directory of the old build: before the
-  repair `os.Remove b` failed (ENOTEMPTY) and the commit with it; now `c` is renamed to `b.butler-rename-1`, the
-  cleanup rename removes `b` with `b/x` and puts the directory there, and the commit reports success: `b` is a
-  directory instead of a file and `c` is gone (`h12_wrong`). -/
+  (12) violated `sources`.  The source `c` becomes a directory and was cleared by `ensureDirs`; the transposition
+  `c → b` then renamed the DIRECTORY `c`.  Its output `b` is a non-empty directory of the old build: before the
+  repair of F8 (1)/(2) `os.Remove b` failed (ENOTEMPTY) and the commit with it; after it `c` was renamed to
+  `b.butler-rename-1`, the cleanup rename removed `b` with `b/x` and put the directory there, and the commit
+  reported success with `b` a directory instead of a file and `c` gone (the former `h12_wrong`).  Since the repair
+  of F8 (3) the FILE `c` steps aside first, and it is the file that ends up at `b`: the commit is right
+  (`h12_ok`). -/
 def h12Old : Build := { dirs := [["b"]], files := [(["c"], [1]), (["b", "x"], [2])] }
 def h12New : Build := { dirs := [["c"]], files := [(["b"], [1])] }
 def h12Work : Work := { transpositions := [(0, 0)] }
@@ -1066,41 +1156,55 @@ theorem h12_hyps : OtherHyps h12Old h12New h12Work [["c"]] [["c"]] :=
   ⟨⟨by decide, by decide, parents_of_check (by decide)⟩, ⟨by decide, by decide, parents_of_check (by decide)⟩,
     WorkOK.of_check (by decide) (by decide) (by decide) (by decide) (by decide) (by decide) (by decide)
       (by decide) (by decide), by decide, by decide⟩
-theorem h12_not_benign : ¬ BenignKindChanges h12Old h12New h12Work :=
-  fun h => h.sources ["c"] (by decide) (by decide)
-/-- success reported, `b` is a directory, `c` is missing -/
-theorem h12_wrong :
-    yields (commit h12Old h12New h12Work [["c"]] [["c"]] (treeOfBuild h12Old)) [(["b"], .dir)] = true := by
-  decide +kernel
-theorem h12_not_holds :
-    ¬ ∃ t', commit h12Old h12New h12Work [["c"]] [["c"]] (treeOfBuild h12Old) = .ok t' ∧ Holds t' h12New := by
-  rintro ⟨t', h1, h2⟩
-  rw [eq_of_yields h12_wrong] at h1
-  cases h1
-  have := h2 ["c"]
-  revert this
-  decide
+/-- now (F8 (3) repaired): `c` steps aside, the directory `c` is made, the aside file is renamed to
+    `b.butler-rename-1`, and the cleanup rename removes `b` with `b/x` and puts the file there -/
+def h12T : Tree := { entries := [(["c"], .dir), (["b"], .file [1])] }
+theorem h12_commit : commit h12Old h12New h12Work [["c"]] [["c"]] (treeOfBuild h12Old) = .ok h12T :=
+  eq_of_yields (by decide +kernel)
+theorem h12_ok :
+    ∃ t', commit h12Old h12New h12Work [["c"]] [["c"]] (treeOfBuild h12Old) = .ok t' ∧ Holds t' h12New :=
+  ⟨h12T, h12_commit, holds_of_check (by decide)⟩
+theorem h12_benign : BenignKindChanges h12Old h12New h12Work := BenignKindChanges.of_check (by decide)
+example :
+    ∃ t', commit h12Old h12New h12Work [["c"]] [["c"]] (treeOfBuild h12Old) = .ok t' ∧ Holds t' h12New :=
+  commit_correct_kinds_partial _ _ _ _ _ h12_hyps.oldWF h12_hyps.newWF h12_benign h12_hyps.work h12_hyps.perm₁
+    h12_hyps.perm₂
 
-/-! ### the full-strength statement is false (F8), and so is it for each of the instances above
+/-! ### what the repair of F8 (3) changes
 
-  (`commitCorrect_false_5`, `_6`, `_7`, since the repair of F27 `_4` and `_8`, and since the repair of F8 (1)/(2)
-  `_2` are gone with the defects they relied on: on (5), (6), (7), F8 (4), (8), F8 (1), F8 (2) the commit is
-  right now.  `commitCorrect_false` used to rest on F8 (1); it rests on F8 (3) now.) -/
+  An exhaustive comparison of the model before and after the repair of F8 (3) (`moveSourcesAside`; before: `commit`
+  without that phase, every source read from its own path) with the compiled model, on the same 34450200 runs
+  over small builds as above (all of them with well-formed builds, parents-first directories and an admissible
+  work record, i.e. inside the hypotheses of `commit_correct`): NO run that yielded the new build before fails or
+  goes wrong now (26631920 runs, exactly those inside the former `BenignKindChanges`, with `sources`: there the
+  aside map is empty and the two models are the same function, `Commit.moveSourcesAside_nil_of_sources`); the
+  4236431 runs that ended in an error and the 3581849 runs that ended in a wrong tree with success reported —
+  all of them violating `sources` — now yield the new build.  NO run fails or goes wrong any more, as
+  `commit_correct` says. -/
 
-theorem commitCorrect_false : ¬ CommitCorrect :=
-  not_commitCorrect_of f8_3_hyps (not_ok_of_failsWith f8_3_fails _)
+/-! ### the full-strength statement without `DirOrder` is false in the model
 
-theorem commitCorrect_false_3 : ¬ CommitCorrect := not_commitCorrect_of f8_3_hyps (not_ok_of_failsWith f8_3_fails _)
+  `CommitCorrect` (Props/C02.lean) has no hypothesis on the order in which the new directories are listed; the
+  model's `commit` fails on (9).  With `DirOrder` it is `commit_correct`.  (`commitCorrect_false`,
+  `commitCorrect_false_3`, `_12` — and before them `_5`, `_6`, `_7`, `_4`, `_8`, `_2` — are gone with the defects
+  they relied on: NO instance with well-formed builds and `DirOrder` on which the commit fails or goes wrong is
+  left.) -/
+
 theorem commitCorrect_false_9 : ¬ CommitCorrect := not_commitCorrect_of g9_hyps (not_ok_of_failsWith g9_fails _)
-theorem commitCorrect_false_12 : ¬ CommitCorrect := not_commitCorrect_of h12_hyps h12_not_holds
 
 /-! ### what remains
 
-  `BenignKindChanges` is sufficient, and each of its two clauses is necessary in the sense that dropping it admits
-  one of the instances above.  `sources` and `dirOrder` are exact up to accidents (a cleared source is lost; a
-  directory listed before the file or symlink above it is created in the wrong place or not at all).  Both are
-  about `ensureDirs`, which still runs first: a new directory has to be there before files are renamed, copied or
-  staged into it.
+  `BenignKindChanges` — `DirOrder` — is sufficient (`commit_correct`), and necessary in the model in the sense
+  that dropping it admits (9): a directory listed before the file or symlink above it is created in the wrong
+  place or not at all.  It is about `ensureDirs`, which runs before the files are renamed, copied or staged: a
+  new directory has to be there first.  `tlc.Walk` lists a directory before what is below it, so the containers
+  the code commits satisfy it; in that sense nothing remains of finding F8.
+
+  Gone with the repair of F8 (3):
+  * `sources` — a transposition source may become a directory: it steps aside before `ensureDirs`
+    (`Commit.moveSourcesAside_spec`), is read from its aside path, and is consumed by the last step of its group
+    (`Commit.Transposed'.consumed`); an aside name is not a path of either build, and its parent is a directory
+    of both.
 
   Gone with the repair of F8 (1)/(2):
   * `emptyDir` — an old directory that becomes a regular file may hold anything: `move` and the staged moves remove
@@ -1134,6 +1238,7 @@ theorem commitCorrect_false_12 : ¬ CommitCorrect := not_commitCorrect_of h12_hy
   is copied onto `s`); since the repair of F26 the symlink is removed before the destination is opened, and the
   two agree on it. -/
 
+-- #print axioms commit_correct                    -- [propext, Classical.choice, Quot.sound]
 -- #print axioms commit_correct_kinds_partial      -- [propext, Classical.choice, Quot.sound]
 -- #print axioms commit_kinds_order_independent    -- [propext, Classical.choice, Quot.sound]
 -- #print axioms NoKindClash.benign                -- [propext, Quot.sound]
@@ -1146,10 +1251,13 @@ theorem commitCorrect_false_12 : ¬ CommitCorrect := not_commitCorrect_of h12_hy
 -- #print axioms f8_1_ok                           -- [propext, Classical.choice, Quot.sound]
 -- #print axioms f8_2_ok                           -- [propext, Classical.choice, Quot.sound]
 -- #print axioms f8_2b_ok                          -- [propext, Classical.choice, Quot.sound]
--- #print axioms h11_wrong                         -- [propext, Classical.choice, Quot.sound]
+-- #print axioms h11_ok                            -- [propext, Classical.choice, Quot.sound]
+-- #print axioms h12_ok                            -- [propext, Classical.choice, Quot.sound]
+-- #print axioms f8_3_ok                           -- [propext, Classical.choice, Quot.sound]
+-- #print axioms f8_3_ok_any_order                 -- [propext, Classical.choice, Quot.sound]
 -- #print axioms g5_ok                             -- [propext, Classical.choice, Quot.sound]
 -- #print axioms g6_ok                             -- [propext, Classical.choice, Quot.sound]
 -- #print axioms g7_ok                             -- [propext, Classical.choice, Quot.sound]
--- #print axioms commitCorrect_false               -- [propext, Classical.choice, Quot.sound]
+-- #print axioms commitCorrect_false_9             -- [propext, Classical.choice, Quot.sound]
 
 end Wharf.C02
